@@ -49,3 +49,49 @@ Example C01_example :
      [C; F; F; F; F; F; F; F; F; P 0; P 1; P 1; P 1; P 0; P 0; C; C; C; C; C; C]) =
   [(0, Ok 50%Z); (1, Ok 60%Z)].
 Proof. vm_compute. reflexivity. Qed.
+
+(* ---- the hand-off queue itself (anchor: "single-reader/single-writer bounded queue keeps FIFO order", _queues.py:28-71).
+   The models above treat SingleLane as an atomic bounded FIFO; Model/Lane.v is its code, one step per access to the mutex,
+   the deque and the two conditions, and these theorems discharge that treatment. ---- *)
+From MpV Require Model.Lane Proof.LaneProof.
+
+(* For every bound, every script of put / get operations (blocking, non-blocking, timed) and full() / empty() reads of the
+   writer and of the reader, and every interleaving including every moment a timed wait may expire: the values get has
+   returned so far, the value held by a get in progress and the queue content are together exactly the items put has
+   accepted so far, in that order - nothing lost, duplicated, reordered or invented. *)
+Theorem C01_singlelane_fifo : forall (g : Lane.cfg) (sched : list Lane.label),
+  let s := run Lane.step g (Lane.init g) sched in
+  Lane.oks (Lane.c_out s) ++ Lane.c_inflight s ++ Lane.q s = Lane.oks (Lane.p_out s) ++ Lane.p_inflight s.
+Proof. exact LaneProof.lane_fifo. Qed.
+Print Assumptions C01_singlelane_fifo.
+
+(* popleft is never called on an empty deque, although get re-tests nothing after a wake-up (`if`, not `while`) *)
+Theorem C01_singlelane_no_underflow : forall (g : Lane.cfg) (sched : list Lane.label),
+  Lane.underflow (run Lane.step g (Lane.init g) sched) = false.
+Proof. exact LaneProof.lane_no_underflow. Qed.
+Print Assumptions C01_singlelane_no_underflow.
+
+(* Every step of every run is a stutter, an atomic put into a queue that is not full, or an atomic get of the oldest item:
+   SingleLane refines the atomic bounded FIFO of the stream models. *)
+Theorem C01_singlelane_refines_atomic : forall (g : Lane.cfg) (sched : list Lane.label) (l : Lane.label) s' e,
+  let s := run Lane.step g (Lane.init g) sched in
+  Lane.step g s l = Some (s', e) ->
+  Lane.q s' = Lane.q s
+  \/ (exists x, Lane.q s' = Lane.q s ++ [x] /\ Lane.isfull g s = false /\ e_op e = OP_APPEND /\ e_val e = x)
+  \/ (exists v, Lane.q s = v :: Lane.q s' /\ e_op e = OP_POPLEFT /\ e_val e = v).
+Proof. exact LaneProof.lane_refines_atomic. Qed.
+Print Assumptions C01_singlelane_refines_atomic.
+
+(* Non-vacuity: bound 1, three blocking puts against three blocking gets; the writer waits on a full queue and is woken. *)
+Example C01_singlelane_example :
+  let g := {| Lane.maxsize := 1;
+              Lane.pscript := [Lane.Put 5 true false; Lane.Put 6 true false; Lane.Put 7 true false];
+              Lane.cscript := [Lane.Get true false; Lane.Get true false; Lane.Get true false] |} in
+  let P := Lane.P false in let C := Lane.C false in
+  let s := run Lane.step g (Lane.init g)
+    [P; P; P; P; P;  P; P; P;            (* 5 is in; the second put finds the queue full and waits *)
+     C; C; C; C; C;                      (* get returns 5 and wakes the writer *)
+     P; P; P; P;                         (* 6 appended without a second test *)
+     C; C; C; C; C;  P; P; P; P; P;  C; C; C; C; C] in
+  Lane.oks (Lane.c_out s) = [5; 6; 7]%Z /\ Lane.pp s = Lane.TDone /\ Lane.cp s = Lane.TDone.
+Proof. vm_compute. repeat split; reflexivity. Qed.
